@@ -115,3 +115,57 @@ Proof.
       destruct all as [|y q]; [discriminate|]. cbn [advance] in A.
       destruct ((y <=? d) || memNl y deleted); [right; apply IHn; exact A | injection A as E1 E2; subst; exact Q].
 Qed.
+
+(* ---------- the replacement is the FIRST kept line after the deleted one, seen from the whole program ---------- *)
+
+Lemma next_kept_skip d pre : forall l del, Forall (fun x => x <= d \/ memNl x del = true) pre ->
+  next_kept d (pre ++ l) del = next_kept d l del.
+Proof.
+  induction pre as [|x r IH]; intros l del H; [reflexivity|].
+  inversion H as [|? ? Hx Hr]; subst. cbn [app next_kept].
+  destruct Hx as [Hx|Hx].
+  - destruct (N.ltb_spec d x); [lia|]. cbn [andb]. apply IH. exact Hr.
+  - rewrite Hx. rewrite andb_false_r. apply IH. exact Hr.
+Qed.
+
+Lemma advance_split : forall fuel d all del all', advance fuel d all del = Some all' ->
+  exists pre, all = pre ++ all' /\ Forall (fun x => x <= d \/ memNl x del = true) pre.
+Proof.
+  induction fuel as [|n IH]; intros d all del all' H; [discriminate|].
+  destruct all as [|x r]; [discriminate|]. cbn [advance] in H.
+  destruct (N.leb_spec x d) as [L|L]; cbn [orb] in H.
+  - destruct (IH _ _ _ _ H) as (pre & -> & F). exists (x :: pre). split; [reflexivity|]. constructor; [left; exact L | exact F].
+  - destruct (memNl x del) eqn:M.
+    + destruct (IH _ _ _ _ H) as (pre & -> & F). exists (x :: pre). split; [reflexivity|]. constructor; [right; exact M | exact F].
+    + injection H as <-. exists []. split; [reflexivity | constructor].
+Qed.
+
+Fixpoint ascending (l : list N) : Prop := match l with [] => True | x :: r => Forall (fun y => x <= y) r /\ ascending r end.
+
+(* with the deleted lines visited in ascending order, each is mapped to the FIRST line of the whole program that comes
+   after it and is not deleted *)
+Theorem ref_map_is_next_kept : forall ds all deleted m pre cur,
+  all = pre ++ cur -> ascending ds ->
+  Forall (fun x => (forall d, In d ds -> x <= d) \/ memNl x deleted = true) pre ->
+  ref_map ds cur deleted = Some m ->
+  Forall (fun p => next_kept (fst p) all deleted = Some (snd p)) m.
+Proof.
+  induction ds as [|d rest IH]; intros all deleted m pre cur Hall Hasc Hpre H; cbn [ref_map] in H.
+  - injection H as <-. constructor.
+  - destruct (advance (S (length cur)) d cur deleted) as [cur'|] eqn:A; [|discriminate].
+    destruct (advance_spec _ _ _ _ _ A) as (x & r & -> & Hlt & Hm & Hn).
+    destruct (advance_split _ _ _ _ _ A) as (pre2 & Hcur & Hpre2).
+    destruct (ref_map rest (x :: r) deleted) as [m'|] eqn:R; [|discriminate]. injection H as <-.
+    cbn [ascending] in Hasc. destruct Hasc as [Hle Hasc'].
+    constructor.
+    + cbn [fst snd]. rewrite Hall. rewrite next_kept_skip; [exact Hn|].
+      eapply Forall_impl; [|exact Hpre]. intros y [Hy|Hy]; [left; apply Hy; left; reflexivity | right; exact Hy].
+    + apply (IH all deleted m' (pre ++ pre2) (x :: r)).
+      * rewrite Hall, Hcur, app_assoc. reflexivity.
+      * exact Hasc'.
+      * apply Forall_app. split.
+        -- eapply Forall_impl; [|exact Hpre]. intros y [Hy|Hy]; [left; intros d' Hd'; apply Hy; right; exact Hd' | right; exact Hy].
+        -- eapply Forall_impl; [|exact Hpre2]. intros y [Hy|Hy]; [left | right; exact Hy].
+           intros d' Hd'. rewrite Forall_forall in Hle. specialize (Hle d' Hd'). lia.
+      * exact R.
+Qed.
